@@ -15,7 +15,7 @@ def run(ctx):
     stages.chan_family(ctx, ["C19."], lambda s: s["op"] in ("NewVoucher", "NewVoucherResult") or len(s["pre"]["results"]) == 0,
                        cells_cfg_quick="fsmtab-c19.cfg")
     # manager level: the same property on a real manager (messages, API calls, transport callbacks)
-    stages.mgr_family(ctx, ["C19."], ["all"], lambda s: s["stim"]["kind"] in ("SendVoucher", "SendVoucherResult", "UpdateValidation") or s["stim"]["msg"]["v"] != "", quick_n=3000, model=not ctx.quick(), sims=False, invariants=["M_C19_Append"])
+    stages.mgr_family(ctx, ["C19."], ["all"], lambda s: s["stim"]["kind"] in ("SendVoucher", "SendVoucherResult", "UpdateValidation") or s["stim"]["msg"]["v"] != "", quick_n=3000, model=not ctx.quick(), sims=False, invariants=["M_C19_Append"], keep=lambda l: any(k in l for k in ('"kind":"SendVoucher"', '"kind":"SendVoucherResult"', '"kind":"Voucher"', '"kind":"VoucherResult"', '"kind":"UpdateValidation"')))
     if not ctx.quick():
         # the repository's own 275 tests, run with the trace hook: every transition they execute is judged
         stages.repo_suite_traces(ctx, ["C19."])
